@@ -15,11 +15,16 @@ func wrapReader(reader io.ReadCloser, writer ...io.Writer) *wrappedReader {
 type wrappedReader struct {
 	reader io.ReadCloser
 	writer []io.Writer
+	// err is the first read error other than io.EOF
+	err error
 }
 
 // Read implement io.Reader
 func (w *wrappedReader) Read(p []byte) (n int, err error) {
 	n, rerr := w.reader.Read(p)
+	if rerr != nil && rerr != io.EOF && w.err == nil {
+		w.err = rerr
+	}
 	for _, w := range w.writer {
 		wTotal := 0
 		for wTotal < n {
